@@ -632,12 +632,27 @@ def run(tier, seed):
     tasks += [('pow2', k, min(k + 128, K + 1)) for k in range(1, K + 1, 128)]
     tasks += [('words', 0, 0)]
     st = par.pmap(work_ints, tasks, chunk=1)
-    check_scalars(st)
-    check_messages(st)
-    check_ssh1(st)
-    check_op_sequences(st, 4 if tier == 'quick' else 5)
-    check_packet_streams(st, 2 if tier == 'quick' else 3)
-    check_audit_traffic(st)
+
+    def family(fn, *args):
+        # an exception raised *inside the tool's codec* while it handles its own encodings is a finding, not a harness failure
+        import traceback
+        try:
+            fn(*args)
+        except Exception as e:
+            frames = traceback.extract_tb(e.__traceback__)
+            inner = frames[-1]
+            if '/ssh_audit/' not in inner.filename:
+                raise
+            caller = next((f for f in reversed(frames) if f.filename.endswith('c10.py')), None)
+            st.violation('codec:tool-raises-on-its-own-encoding:%s:%s' % (type(e).__name__, fn.__name__),
+                         {'exception': '%s: %s' % (type(e).__name__, e), 'in': '%s:%s' % (inner.filename.split('/ssh_audit/')[-1], inner.name),
+                          'check_line': caller.lineno if caller else None})
+    family(check_scalars, st)
+    family(check_messages, st)
+    family(check_ssh1, st)
+    family(check_op_sequences, st, 4 if tier == 'quick' else 5)
+    family(check_packet_streams, st, 2 if tier == 'quick' else 3)
+    family(check_audit_traffic, st)
     par.pmap(work_fault_traffic, fault_traffic_tasks(tier), stats=st)
     L = 1024 if tier == 'quick' else 4096
     par.pmap(work_framing, list(range(0, L + 1)), stats=st)
